@@ -205,3 +205,16 @@ def c01(ctx):
     return ctx.finish(explanation="structural necessary conditions of persistence: dirty-flag discipline, finisher arming, the three close paths, the "
                       "finisher's completeness and ordering, flush-before-drop, reader/writer symmetry of the cell and pool codecs, and the "
                       "reader's long-string escape never being emitted for a live entry. Equality of reopened values is not decided")
+
+
+@prop("C10")
+def c10(ctx):
+    from .rules import propset
+    propset.run(ctx)
+    n = panic_module(ctx, "PANIC(summary)", ("src/internal/propset.rs", "src/internal/summary.rs"),
+                     lambda f: f.file in ("src/internal/summary.rs", "src/internal/propset.rs") and f.kind != "Closure",
+                     "SummaryInfo::* and PropertySet::{read,write,set,..}")
+    ctx.floor("PANIC(summary)", "potential panic sites in propset.rs / summary.rs", n, 15)
+    return ctx.finish(explanation="type-number and size tables of the property-value codec recovered from MIR and compared pairwise and with the format; "
+                      "information-flow rule on what is measured; conversion rule for the stored code page id; header byte counting; panic inventory. "
+                      "Getter/setter value equality after reopen is not decided")
